@@ -277,7 +277,7 @@ pub fn run(ctx: &Ctx, st: &mut Stats) -> Vec<Violation> {
         return v;
     }
     // real-size images
-    let sizes: Vec<(usize, usize)> = if ctx.quick() { crate::gen::LARGE_SIZES[..8].to_vec() } else { crate::gen::LARGE_SIZES.to_vec() };
+    let sizes: Vec<(usize, usize)> = crate::gen::large_sizes(ctx.quick());
     let seed0 = ctx.seed;
     v.extend(par_sweep(ctx, st, sizes.len() as u64 * 2, |lo, hi, st| {
         for j in lo..hi {
